@@ -220,6 +220,12 @@ def tree_with_targets(name, kind, mode, content, skew):
     fs.mkdirs('/t')
     fs.mkdirs('/out')
     fs.put('/t/base', b'base')
+    # SCM meta data below the top level differs between the two trees: it must not matter at any depth
+    fs.mkdirs('/t/nest/.git')
+    fs.put('/t/nest/.git/config', b'A' if skew == 0 else b'B')
+    fs.mkdirs('/t/nest/deep/.svn')
+    fs.put('/t/nest/deep/.svn/entries', b'A' if skew == 0 else b'BB')
+    fs.put('/t/nest/deep/keep', b'keep')
     p = '/t/' + ENAMES[name]
     fs.clock += skew
     fs.next_ino += skew
